@@ -427,7 +427,23 @@ func sliceContent(s *State, sl *SliceV) *Bytes {
 	if sl.Obj == 0 {
 		return EmptyBytes()
 	}
-	return SliceBytes(s.heap[sl.Obj].B, sl.Off, Add(sl.Off, sl.Len))
+	o := s.heap[sl.Obj]
+	if o.B == nil && o.E != nil && sl.Off.IsConst() && sl.Len.IsConst() {
+		// a []uint8 / []int8 kept element-wise (lists built by the drivers): its bytes are its elements
+		var bs []*Term
+		for i := int(sl.Off.Val); i < int(sl.Off.Val+sl.Len.Val) && i < len(o.E); i++ {
+			t, ok := o.E[i].(*Term)
+			if !ok || t.W != 8 {
+				panic(engineUnsupported("byte view of a slice whose elements are not bytes"))
+			}
+			bs = append(bs, t)
+		}
+		return VecBytes(bs)
+	}
+	if o.B == nil {
+		panic(engineUnsupported("byte view of a non-byte object"))
+	}
+	return SliceBytes(o.B, sl.Off, Add(sl.Off, sl.Len))
 }
 
 // readInto: common helper of Read / ReadFull / binary.Read. need = number of bytes wanted.
